@@ -572,6 +572,8 @@ class ExprMixin:
       (rp, cn), hb = self.heap_binding(recv.sort)
       if attr in hb[2]:
         return self.heap_read(recv, attr)
+      if (recv.sort.name, attr) in self.theory.method_models:
+        return BoundMethod(recv, attr, getattr(node, 'value', None))
       from engine import source as _src
       hmod = _src.load(self.repo, rp)
       q = hmod.resolve_method(cn, attr)
@@ -579,6 +581,8 @@ class ExprMixin:
         if 'property' in _src.decorators(hmod.defs[q]):
           return self.call_func(FuncRef(hmod, q, bound_self=recv), [], {}, node)
         return FuncRef(hmod, q, bound_self=recv)
+      if (recv.sort.name, attr) in self.theory.method_models:
+        return BoundMethod(recv, attr, getattr(node, 'value', None))
       raise ContractMisfit('heap class %s has no field/method %s' % (cn, attr))
     if isinstance(recv, V):
       s = recv.sort
